@@ -42,6 +42,31 @@ inductive Sees (g : List Scope) (k : Nat) : Scope → Str → Ent → Prop
   | decl {s : Scope} {d : Decl} : s ∈ g → d ∈ s.decls → d.kind = k → Sees g k s d.name (s.name, d.name)
   | imp {s : Scope} {l : Str} {e : Ent} : Imports g k s l e → Sees g k s l e
 
+/-! ### Host association (F2018 19.5.1.4) for contained procedures -/
+
+/-- `ImportsU g k us l e`: the USE statements `us` (of some scope) make `e` accessible under `l` -/
+inductive ImportsU (g : List Scope) (k : Nat) (us : List UseA) : Str → Ent → Prop
+  | mk {n : Scope} {u : UseA} {r l : Str} {e : Ent} : u ∈ us → n ∈ g → n.isMod = true →
+      n.name = u.mod → Exports g k n r e → Admits u r l → ImportsU g k us l e
+
+/-- `SeesIn g k hostSees p l e`: in the contained procedure `p`, whose host sees `hostSees`, the
+    identifier `l` denotes the kind-`k` entity `e`.  A host entity is accessible by host
+    association only if its identifier is neither declared in `p` nor obtained by `p` through
+    USE - as an entity of *any* kind: a use-associated identifier hides the host's. -/
+inductive SeesIn (g : List Scope) (k : Nat) (hostSees : Str → Ent → Prop) (p : Scope) : Str → Ent → Prop
+  | decl {d : Decl} : d ∈ p.decls → d.kind = k → SeesIn g k hostSees p d.name (p.name, d.name)
+  | imp {l : Str} {e : Ent} : ImportsU g k p.uses l e → SeesIn g k hostSees p l e
+  | host {l : Str} {e : Ent} : hostSees l e → (∀ d ∈ p.decls, d.name ≠ l) →
+      (∀ k' e', ¬ ImportsU g k' p.uses l e') → SeesIn g k hostSees p l e
+
+/-- FORD keeps one table per kind, so an identifier of the host's kind-`k` table can only be hidden
+    by a kind-`k` entity of the procedure: the class of programs in which a procedure hides a host
+    identifier by an entity of another kind is excluded from the exactness theorem. -/
+def SameKindHiding (g : List Scope) (k : Nat) (hostAll : Table) (p : Scope) : Prop :=
+  ∀ l, (aget hostAll l).isSome = true →
+    (∀ d ∈ p.decls, d.name = l → d.kind = k) ∧
+    (∀ k' e', ImportsU g k' p.uses l e' → ∃ e'', ImportsU g k p.uses l e'')
+
 /-! ### Decidable side conditions used by the property theorems -/
 
 /-- scope names are unique in the project -/
@@ -77,6 +102,23 @@ def isTopo (g : List Scope) : List Str → List Str → Bool
     (match findScope g nm with
       | none => true
       | some m => usesDone g done m && !done.contains nm) && isTopo g (nm :: done) rest
+
+/-- the same, counting the USE statements of contained procedures as dependencies of their root
+    (what `get_deps`' recursion is for) -/
+def nestedDone (g : List Scope) (ns : List Nested) (done : List Str) (nm : Str) : Bool :=
+  ns.all (fun x => x.root != nm || usesDone g done x.scope)
+
+def isTopoN (g : List Scope) (ns : List Nested) : List Str → List Str → Bool
+  | _, [] => true
+  | done, nm :: rest =>
+    (match findScope g nm with
+      | none => true
+      | some m => usesDone g done m && !done.contains nm && nestedDone g ns done nm) && isTopoN g ns (nm :: done) rest
+
+/-- a contained procedure is listed after its host (`seen`: the root and the procedures so far) -/
+def hostsFirst : List Str → List Nested → Prop
+  | _, [] => True
+  | seen, x :: xs => x.host ∈ seen ∧ hostsFirst (x.scope.name :: seen) xs
 
 def hasKey {α : Type} (t : AList α) (l : Str) : Prop := (aget t l).isSome = true
 
